@@ -107,7 +107,7 @@ fn family_scope(family: &str, tier: Tier) -> String {
     match family {
         "strings" => format!("all strings of at most {} symbols over the 30-symbol alphabet, and every Unicode scalar value in 9 contexts", tier.pick(5, 7)),
         "tokens" => format!("all viable token-kind prefixes of the Kiki grammar to depth {} and all their one-token extensions, rendered to text", tier.pick(13, 16)),
-        "asts" => format!("all files of at most {} items over the 184-item alphabet of C10", tier.pick(3, 4)),
+        "asts" => format!("all files of at most {} items over the 204-item alphabet of C10", tier.pick(3, 4)),
         "grammars" => format!("all grammars of {}", grammar_specs(tier).iter().map(|s| s.name()).collect::<Vec<_>>().join(", ")),
         _ => String::new(),
     }
